@@ -76,11 +76,12 @@ func c01Workload[T any](rep *Report, codec Codec[T], api string, rng *rand.Rand,
 		tag  int
 		str  string
 		res  callResult
+		fail bool // the handler returns a value TOGETHER with an error
 	}
 	recs := make([]*callRec, n)
 	var wg sync.WaitGroup
 	for i := 0; i < n; i++ {
-		r := &callRec{tag: i, str: fmt.Sprintf("s%d-%d", i, rng.Intn(1000))}
+		r := &callRec{tag: i, str: fmt.Sprintf("s%d-%d", i, rng.Intn(1000)), fail: rng.Intn(4) == 0}
 		if rng.Intn(2) == 0 {
 			r.from = "A"
 		} else {
@@ -93,6 +94,10 @@ func c01Workload[T any](rep *Report, codec Codec[T], api string, rng *rand.Rand,
 			rem := ra
 			if r.from == "B" {
 				rem = rb
+			}
+			if r.fail {
+				r.res = withWatchdog(func() (any, error) { return rem.FailVal(context.Background(), r.tag*10+7, r.str, true) })
+				return
 			}
 			r.res = withWatchdog(func() (any, error) { return rem.Echo(context.Background(), r.tag, r.str) })
 		}()
@@ -123,6 +128,13 @@ func c01Workload[T any](rep *Report, codec Codec[T], api string, rng *rand.Rand,
 		key := fmt.Sprintf("C01:%s:%s", api, pattern)
 		if !r.res.ok {
 			rep.addViolation("property", key+":hang", fmt.Sprintf("call %d from %s did not return within %v on a healthy link", r.tag, r.from, watchdog), desc)
+			continue
+		}
+		if r.fail {
+			// exactly the value AND the error its own invocation produced
+			if r.res.err == nil || r.res.err.Error() != r.str || r.res.val.(int) != r.tag*10+7 {
+				rep.addViolation("property", key+":value+error", fmt.Sprintf("call %d from %s: its handler returned (%d, %q), the caller got (%v, %v)", r.tag, r.from, r.tag*10+7, r.str, r.res.val, r.res.err), desc)
+			}
 			continue
 		}
 		if r.res.err != nil {
@@ -391,6 +403,17 @@ func runC02(rep *Report, tier string, seed int64) {
 			c02Workload(rep, jsonRaw(), api, 1, "stalled-closure", st)
 			c02Workload(rep, cborRaw(), api, 1, "stalled-closure", st)
 		}
+	}
+	// no admission limit: far more handlers in flight / far deeper chains than any plausible built-in bound
+	// (worker pools, semaphores and buffered queues are sized in the hundreds or low thousands)
+	big := []int{1300, 2600}
+	if tier == "thorough" {
+		big = []int{1300, 2600, 5000, 12000}
+	}
+	for i, n := range big {
+		api := apis()[i%len(apis())]
+		c02Workload(rep, cborRaw(), api, 3, "chain", n/2)
+		c02Workload(rep, cborRaw(), apis()[(i+1)%len(apis())], n, "chain", 0)
 	}
 	_ = seed
 }
